@@ -54,6 +54,8 @@ type Sched struct {
 	Steps         int
 	MaxSteps      int
 	YieldOnUnlock bool   // a lock release is a scheduling point too
+	MapSeed       uint64 // non-zero: order of the woven map ranges (0: sorted keys)
+	mapDraws      uint64
 	Deadlock      string // non-empty: no goroutine could run although work remained
 	CapHit        bool
 	Trace         []string // "name@site" per step (kept short)
@@ -477,4 +479,36 @@ func MixedChooser(seed uint64, s *Sched) func(n int) int {
 			return best
 		}
 	}
+}
+
+// MapOrder is the hook behind the woven map ranges: the order in which the keys
+// (sorted) of a map of n entries are visited. It is a pure function of the run's
+// MapSeed and of how many map ranges came before, so it replays.
+func MapOrder(n int) []int {
+	perm := make([]int, n)
+	for i := range perm {
+		perm[i] = i
+	}
+
+	s := current
+	if s == nil || s.MapSeed == 0 {
+		return perm
+	}
+
+	s.mu.Lock()
+	s.mapDraws++
+	x := s.MapSeed + s.mapDraws*0x9e3779b97f4a7c15
+	s.mu.Unlock()
+
+	for i := n - 1; i > 0; i-- {
+		x += 0x9e3779b97f4a7c15
+		z := x
+		z = (z ^ (z >> 30)) * 0xbf58476d1ce4e5b9
+		z = (z ^ (z >> 27)) * 0x94d049bb133111eb
+		z ^= z >> 31
+		j := int(z % uint64(i+1))
+		perm[i], perm[j] = perm[j], perm[i]
+	}
+
+	return perm
 }
